@@ -9,7 +9,7 @@ PROPERTY_INFO = {
                 desc='generated -c and -python (simple back end) wrappers of the corpus corpus/c01/*.h, each declared with the C signature the database records and checked against the direct C++ call on twin symbolic arguments',
                 claim='Translation validation by solver: interrogate is built from /repo and run on every corpus header x option set; every wrapper the DATABASE lists is declared from the database signature, called on symbolic arguments/object fields and compared by CBMC with the direct C++ call for that (function, parameter types) key: result, trace cell (overload/default variant), object post-state, result aliasing. A wrapper the corpus does not expect, a corpus function without wrapper, a generated file that does not compile are violations. Per corpus entry, not for all headers.',
                 explanation='translation validation by solver of generated code',
-                outside='headers outside the corpus; the -python-native back end (C02 covers generator-side kernels of it); for -python: the CPython C API is a model (models/cpython.c: tagged objects, PyArg_ParseTuple/Py*_From*/As* per their documentation; counterexamples are replayed against the real libpython3.11), reference counts and keyword arguments are not compared; the contents of the -fptrs / -unique-names lookup tables (_in_fptrs, _in_unique_names: compiled, not read back; seed c11r3b is an open miss); -refcount outside corpus s7; classes inside namespaces (interrogate records their functions but emits no -c wrappers); allocation failure',
+                outside='headers outside the corpus; the -python-native back end (C02 covers generator-side kernels of it); for -python: the CPython C API is a model (models/cpython.c: tagged objects, PyArg_ParseTuple/Py*_From*/As* per their documentation; counterexamples are replayed against the real libpython3.11), reference counts and keyword arguments are not compared; the module definition that would register the -fptrs / -unique-names tables at run time (compiled out of the generator with #if 0; the tables themselves are checked against the database by the h_tables harness); -refcount outside corpus s7; classes inside namespaces (interrogate records their functions but emits no -c wrappers); allocation failure',
                 assumptions=[]),
 }
 NOT_APPLICABLE = {}
